@@ -116,17 +116,32 @@ class BioTLS:
     """TLS client over ssl.MemoryBIO, so that the harness decides how the bytes of one TLS RECORD are cut
     into TCP segments (an SSLSocket always writes a record in one go)."""
 
-    def __init__(self, ctx, sock, server_hostname):
+    def __init__(self, ctx, sock, server_hostname, coalesce_with=None):
+        """coalesce_with: bytes (the CONNECT head) to put in front of the ClientHello in ONE segment, i.e. a
+        client that does not wait for '200 Connection established' before starting TLS."""
         self.sock = sock
         self.inc, self.out = ssl.MemoryBIO(), ssl.MemoryBIO()
         self.obj = ctx.wrap_bio(self.inc, self.out, server_hostname=server_hostname)
+        self.connect_response = None
         while True:
             try:
                 self.obj.do_handshake()
                 self._flush()
                 break
             except ssl.SSLWantReadError:
-                self._flush()
+                if coalesce_with is not None:
+                    sock.sendall(coalesce_with + self.out.read())
+                    coalesce_with = None
+                    head = read_until(sock, b'\r\n\r\n')
+                    i = head.find(b'\r\n\r\n')
+                    self.connect_response = head[:i + 4] if i >= 0 else head
+                    if not head.startswith(b'HTTP/1.1 200'):
+                        raise EOFError('CONNECT answered %r' % head[:40])
+                    if i >= 0 and head[i + 4:]:
+                        self.inc.write(head[i + 4:])
+                        continue
+                else:
+                    self._flush()
                 self._fill()
 
     def _flush(self, split=False):
@@ -148,9 +163,11 @@ class BioTLS:
             raise EOFError('connection closed during TLS exchange')
         self.inc.write(d)
 
-    def sendall(self, data, split=True):
+    split_default = True
+
+    def sendall(self, data, split=None):
         self.obj.write(data)
-        self._flush(split)
+        self._flush(self.split_default if split is None else split)
 
     def recv(self, n):
         while True:
@@ -182,20 +199,28 @@ def one_connection(pt, ex, origin, host_for_connect, verify_ca, expect_cert_name
     a, b = socket.socketpair()
     ex.work_queue.put((b, ('127.0.0.1', 51000)))
     target = '%s:%d' % (host_for_connect, origin.port)
+    connect = ('CONNECT %s HTTP/1.1\r\nHost: %s\r\n\r\n' % (target, target)).encode()
+    # opted-out tunnels may be entered by a client that sends its ClientHello right behind the CONNECT head
+    early = pt['packing'] == 'early_hello' and pt['optout'] not in (False, 'bystander_only')
     try:
-        a.sendall(('CONNECT %s HTTP/1.1\r\nHost: %s\r\n\r\n' % (target, target)).encode())
-        head = read_until(a, b'\r\n\r\n')
-        obs['connect_response'] = head.split(b'\r\n')[0].decode('latin-1') if head else 'closed'
-        if not head.startswith(b'HTTP/1.1 200'):
-            obs['client_app_bytes'] = 0
-            return obs
+        if not early:
+            a.sendall(connect)
+            head = read_until(a, b'\r\n\r\n')
+            obs['connect_response'] = head.split(b'\r\n')[0].decode('latin-1') if head else 'closed'
+            if not head.startswith(b'HTTP/1.1 200'):
+                obs['client_app_bytes'] = 0
+                return obs
         ctx = ssl.SSLContext(ssl.PROTOCOL_TLS_CLIENT)
         ctx.load_verify_locations(verify_ca)
         ctx.check_hostname = True
         ctx.verify_mode = ssl.CERT_REQUIRED
         a.settimeout(60)
         try:
-            if pt['packing'] == 'split_record':
+            if early:
+                t = BioTLS(ctx, a, expect_cert_name, coalesce_with=connect)
+                t.split_default = False
+                obs['connect_response'] = (t.connect_response or b'').split(b'\r\n')[0].decode('latin-1')
+            elif pt['packing'] == 'split_record':
                 t = BioTLS(ctx, a, expect_cert_name)
             else:
                 t = ctx.wrap_socket(a, server_hostname=expect_cert_name)
@@ -219,7 +244,7 @@ def one_connection(pt, ex, origin, host_for_connect, verify_ca, expect_cert_name
         bodies = []
         got = b''
         for rq in reqs:
-            if pt['packing'] in ('whole', 'split_record'):
+            if pt['packing'] in ('whole', 'split_record', 'early_hello'):
                 pieces = [rq]
             elif pt['packing'] == 'split_header':
                 i = rq.index(b'Host:') + 3
